@@ -196,6 +196,40 @@ BAD_COUNTS = [b"0", b"1", b"-0", b"abc", b"", b" 5", b"5 ", b"5x", b"+3", b"0x10
               b"99999999999999999999999", b"3.5", b"\xd9\xa1"]
 
 
+NUMBER_TOKENS = [b"NaN", b"nan", b"-NaN", b"+NaN", b"NaNx", b"NAN", b"inf", b"-inf", b"+inf", b"Infinity", b"-Infinity", b"INF", b"-in", b"in"]
+
+
+def number_token_mutants(data):
+    """every special number spelling of the converter (its "NaN" and "inf" symbols, signs, case, trailing junk) in probability and
+    in back-off position of a unigram, a middle-order and a highest-order entry: run on every check so that both verdicts of
+    each are exercised (a literal NaN probability is *accepted* by the code, a NaN / infinite back-off is not)"""
+    lines = data.split(b"\n")
+    kinds = classify(lines)
+    orders = sorted({n for k, n in kinds if k == "header"})
+    if not orders:
+        return
+    picks = []
+    for n in sorted({1, orders[len(orders) // 2], orders[-1]}):
+        idx = [i for i, k in enumerate(kinds) if k == ("entry", n) and lines[i].count(b"\t") >= (2 if n < orders[-1] else 1)
+               and not lines[i].split(b"\t")[1].startswith(b"<")]
+        if idx:
+            picks.append((n, idx[len(idx) // 2]))
+    for n, i in picks:
+        f = lines[i].split(b"\t")
+        for tok in NUMBER_TOKENS:
+            for pos in ("prob", "backoff"):
+                g = list(f)
+                if pos == "prob":
+                    g[0] = tok
+                elif len(g) >= 3:
+                    g[2] = tok
+                else:
+                    g.append(tok)
+                out = list(lines)
+                out[i] = b"\t".join(g)
+                yield b"\n".join(out), "number-token:%s:%s:order%d" % (tok.decode(), pos, n)
+
+
 def pick_line(rng, kinds, want):
     idx = [i for i, k in enumerate(kinds) if k[0] in want]
     return rng.choice(idx) if idx else None
